@@ -313,7 +313,10 @@ void HttpMessage::readBody()
 				end = true;
 		}
 		while (maxToRead > 0) {
-			bytesRead = _socket->read(buffer, min(maxToRead, (int)sizeof(buffer)));
+			int toRead = min(maxToRead, (int)sizeof(buffer));
+			if (size > 0 && toRead > size) // a body with Content-Length ends there: what else is waiting belongs to the next message
+				toRead = size;
+			bytesRead = _socket->read(buffer, toRead);
 			if (bytesRead <= 0) {
 				return;
 			}
